@@ -231,7 +231,7 @@ func TestC15Governance(t *testing.T) {
 			x := uint64(rapid.IntRange(1, 6).Draw(t, "hfstep")) * 40000
 			hf = config.HardforkConfig{V2: x, V3: 2 * x, V4: 3 * x, V5: 4 * x}
 		}
-		opts := vnode.WorldOpts{Consensus: "dpos", Public: rapid.Bool().Draw(t, "public"), NUsers: nusers, NBPs: nbps, Hardfork: hf, Magic: "verif.c15"}
+		opts := vnode.WorldOpts{Consensus: "dpos", Public: rapid.Bool().Draw(t, "public"), NUsers: nusers, NBPs: nbps, Hardfork: hf, Magic: "verif.c15", Rich: true}
 		spec := vnode.NewSpec(opts)
 		spec.VotingReward = true
 		N, err := vnode.Open(spec, "")
@@ -243,19 +243,23 @@ func TestC15Governance(t *testing.T) {
 		m := &model{acc: map[int]*mAcc{}, total: new(big.Int), names: map[string]int{}, min: new(big.Int).Set(vnode.StakeMin), price: new(big.Int).Set(vnode.Aergo)}
 		root := N.Best().GetHeader().GetBlocksRootHash()
 		now := uint64(0)
-		nblocks := rapid.IntRange(2, 10).Draw(t, "nblocks")
+		nblocks := rapid.IntRange(2, 14).Draw(t, "nblocks")
 		var hist []string
 		classes := map[string]bool{}
 		nontrivial := false
 		tieOrder := map[string]bool{} // "issue|a|b": a was ranked before b while tied
 		nonces := map[int]uint64{}
+		// known finding vpr-votes-cast-before-v2: votes cast under fork version < 2 never enter the
+		// voting power ranking, but changing them under version >= 2 subtracts them from it
+		preV2Voter := map[int]bool{}
+		preV2VoteTouched, vprKnownHit := false, false
 		cands := []string{}
-		for i := 0; i < 5; i++ {
+		for i := 0; i < rapid.IntRange(2, 5).Draw(t, "ncandidates"); i++ {
 			cands = append(cands, vnode.BPN(i).Enc())
 		}
 		issues := []string{"BPCOUNT", "GASPRICE", "STAKINGMIN", "NAMEPRICE"}
 		for b := 0; b < nblocks; b++ {
-			now += uint64(rapid.SampledFrom([]int{1, 1, 7, delay - 1, delay, delay, delay + 1, 2 * delay, 100000}).Draw(t, "jump"))
+			now += uint64(rapid.SampledFrom([]int{1, 1, 7, delay - 1, delay, delay, delay, delay + 1, delay + 1, 2 * delay, 100000}).Draw(t, "jump"))
 			ver := N.CS.VerifHardfork().Version(now)
 			mode := contract.ChainService
 			if rapid.Bool().Draw(t, "producerMode") {
@@ -263,21 +267,41 @@ func TestC15Governance(t *testing.T) {
 			}
 			vb := N.NewVBlock(root, now, int64(now)*1000000000, mode)
 			m.atStart = map[string]bool{}
-			for nm := range m.names {
+			ownerAtStart := map[string]int{}
+			for nm, ow := range m.names {
 				m.atStart[nm] = true
+				ownerAtStart[nm] = ow
 			}
 			ntx := rapid.IntRange(1, 5).Draw(t, "ntx")
 			var bdesc []string
 			for k := 0; k < ntx; k++ {
 				o := op{from: rapid.IntRange(0, nusers-1).Draw(t, "from")}
 				a := m.a(o.from)
-				o.kind = rapid.SampledFrom([]string{"stake", "stake", "unstake", "unstake", "votebp", "votebp", "votebp", "votedao", "votedao", "name-create", "name-update", "transfer"}).Draw(t, "kind")
+				kinds := []string{"stake", "stake", "unstake", "unstake", "votebp", "votebp", "votebp", "votedao", "votedao", "name-create", "name-update", "transfer"}
+				if rapid.IntRange(0, 9).Draw(t, "purposeful") < 7 {
+					// purposeful mode: prefer the operation that can make progress from the model state
+					unlocked := !a.everStaked || a.when+delay <= now
+					switch {
+					case a.stake.Sign() == 0 && unlocked:
+						kinds = []string{"stake", "stake", "stake", "name-create", "name-update", "votebp"}
+					case a.stake.Sign() == 0:
+						kinds = []string{"name-create", "name-update", "name-update", "transfer", "stake"}
+					case a.votes["voteBP"] == nil:
+						kinds = []string{"votebp", "votebp", "votebp", "votedao", "name-update"}
+					case unlocked:
+						kinds = []string{"votebp", "votebp", "votedao", "unstake", "unstake", "unstake", "stake", "name-update"}
+					default:
+						kinds = []string{"votedao", "name-create", "name-update", "name-update", "transfer", "unstake", "votebp"}
+					}
+				}
+				o.kind = rapid.SampledFrom(kinds).Draw(t, "kind")
 				switch o.kind {
 				case "stake":
-					o.amount = new(big.Int).Mul(big.NewInt(int64(rapid.SampledFrom([]int{9999, 10000, 10000, 10001, 20000, 1, 30000}).Draw(t, "stakeAmt"))), vnode.Aergo)
+					// 1208926 AERGO = 2^80 aer and 309485010 AERGO = 2^88 aer: amounts whose byte length differs
+					o.amount = new(big.Int).Mul(big.NewInt(int64(rapid.SampledFrom([]int{9999, 10000, 10000, 10001, 20000, 1, 30000, 1300000, 2000000, 400000000}).Draw(t, "stakeAmt"))), vnode.Aergo)
 				case "unstake":
 					st := new(big.Int).Div(a.stake, vnode.Aergo).Int64()
-					choices := []int64{st, st, st / 2, st - 10000, 1, st + 1, st - 9999, 10000}
+					choices := []int64{st, st, st, st / 2, st / 2, st - 10000, 1, st + 1, st - 9999, 10000, st - 1000000, st - 100000000}
 					v := rapid.SampledFrom(choices).Draw(t, "unstakeAmt")
 					if v < 0 {
 						v = 0
@@ -285,6 +309,9 @@ func TestC15Governance(t *testing.T) {
 					o.amount = new(big.Int).Mul(big.NewInt(v), vnode.Aergo)
 				case "votebp":
 					n := rapid.IntRange(1, 3).Draw(t, "ncand")
+					if n > len(cands) {
+						n = len(cands)
+					}
 					seen := map[int]bool{}
 					for len(o.cands) < n {
 						c := rapid.IntRange(0, len(cands)-1).Draw(t, "cand")
@@ -311,6 +338,18 @@ func TestC15Governance(t *testing.T) {
 				case "name-update":
 					o.name = fmt.Sprintf("name%08d", rapid.IntRange(0, 3).Draw(t, "nameIdx"))
 					o.to = rapid.IntRange(0, nusers-1).Draw(t, "newOwner")
+					// senders of interest: the current owner, and whoever owned the name when the block started
+					switch rapid.IntRange(0, 3).Draw(t, "updSender") {
+					case 0, 1:
+						if ow, ok := m.names[o.name]; ok {
+							o.from = ow
+						}
+					case 2:
+						if ow, ok := ownerAtStart[o.name]; ok {
+							o.from = ow
+						}
+					}
+					a = m.a(o.from)
 					o.amount = new(big.Int).Mul(big.NewInt(int64(rapid.SampledFrom([]int{1, 1, 1, 0}).Draw(t, "nameAmt"))), vnode.Aergo)
 				default:
 					o.to = rapid.IntRange(0, nusers-1).Draw(t, "to")
@@ -324,10 +363,15 @@ func TestC15Governance(t *testing.T) {
 						preVotes++
 					}
 				}
-				want := m.expect(o, now, ver)
-				balBefore := vb.BS // placeholder to keep the block state referenced
-				_ = balBefore
 				senderBefore, _ := vb.BS.GetAccountState(types.ToAccountID(vnode.KeyN(o.from).Addr))
+				want := false
+				if o.amount != nil && (o.kind == "stake" || o.kind == "name-create" || o.kind == "name-update" || o.kind == "transfer") &&
+					new(big.Int).SetBytes(senderBefore.Balance).Cmp(o.amount) < 0 {
+					// cannot pay the amount: refused whatever the governance rules say (fees are not modelled: on
+					// public networks the balances used here leave ample room for them)
+				} else {
+					want = m.expect(o, now, ver)
+				}
 				out := vb.Apply(tx)
 				if out.Panic != nil {
 					t.Fatalf("block %d (height %d, v%d): %s panicked: %v\n%s\nhistory: %s", b, now, ver, o, out.Panic, out.Stack, strings.Join(hist, " | "))
@@ -339,6 +383,12 @@ func TestC15Governance(t *testing.T) {
 				}
 				if got {
 					nonces[o.from]++
+					if (o.kind == "votebp" || o.kind == "votedao") && ver < 2 {
+						preV2Voter[o.from] = true
+					}
+					if (o.kind == "votebp" || o.kind == "votedao" || o.kind == "unstake") && ver >= 2 && preV2Voter[o.from] {
+						preV2VoteTouched = true
+					}
 					if o.kind == "unstake" {
 						// unstaking returns exactly the requested amount (governance txs carry no fee)
 						senderAfter, _ := vb.BS.GetAccountState(types.ToAccountID(vnode.KeyN(o.from).Addr))
@@ -474,7 +524,13 @@ func TestC15Governance(t *testing.T) {
 				}
 			}
 			// in-memory voting power ranking vs the one rebuilt from the stored state
-			if eq, memTotal, stTotal, err := system.VerifVPREqualsState(scs); err != nil || !eq {
+			if eq, memTotal, stTotal, err := system.VerifVPREqualsState(scs); vprKnownHit {
+				// the ranking is already off because of the known finding: nothing more to learn from it
+			} else if (err != nil || !eq) && preV2VoteTouched && rec.IsKnown("vpr-votes-cast-before-v2") {
+				rec.Excluded("vpr-votes-cast-before-v2")
+				classes["known:vpr-votes-cast-before-v2"] = true
+				vprKnownHit = true
+			} else if err != nil || !eq {
 				t.Fatalf("in-memory voting power ranking (total %v) differs from the one rebuilt from state (total %v, err %v):\n%s\n%s", memTotal, stTotal, err, system.VerifVPRDescribe(scs), where)
 			}
 			// names
@@ -503,4 +559,53 @@ func TestC15Governance(t *testing.T) {
 			return map[string]interface{}{"public": opts.Public, "hardfork": fmt.Sprintf("%+v", opts.Hardfork), "history": hist}
 		})
 	})
+}
+
+// known: C15 vpr-votes-cast-before-v2 — deterministic reproduction
+func TestC15KnownPreV2Vote(t *testing.T) {
+	rec := ev.New("C15", "known-prev2-vote")
+	defer rec.Flush()
+	hf := config.HardforkConfig{V2: 100000, V3: 200000, V4: 300000, V5: 400000}
+	opts := vnode.WorldOpts{Consensus: "dpos", Public: false, NUsers: 2, NBPs: 1, Hardfork: hf, Magic: "verif.c15k"}
+	spec := vnode.NewSpec(opts)
+	spec.VotingReward = true
+	N, err := vnode.Open(spec, "")
+	if err != nil {
+		t.Fatal(err)
+	}
+	defer N.Remove()
+	N.SwitchTo()
+	root := N.Best().GetHeader().GetBlocksRootHash()
+	run := func(no uint64, nonce uint64, o op) {
+		vb := N.NewVBlock(root, no, int64(no)*1e9, contract.ChainService)
+		out := vb.Apply(o.tx(nonce, vb.ChainIDHash()))
+		if out.Kind() != "success" {
+			t.Fatalf("harness: %s at height %d: %s %v %v", o, no, out.Kind(), out.Err, out.Panic)
+		}
+		r, err := vb.Finish(false, nil)
+		if err != nil {
+			t.Fatal(err)
+		}
+		system.CommitParams(true)
+		root = r
+	}
+	run(1, 1, op{kind: "stake", from: 0, amount: vnode.StakeMin})
+	run(2, 2, op{kind: "votebp", from: 0, cands: []string{vnode.BPN(0).Enc()}})        // fork version 0: not in the ranking
+	run(100001, 3, op{kind: "votedao", from: 0, issue: "BPCOUNT", cands: []string{"3"}}) // version 2: in the ranking
+	run(200002, 4, op{kind: "unstake", from: 0, amount: vnode.StakeMin})                // shrinks both votes
+	rec.Case("regression", "prev2-vote", true, func() interface{} { return "stake, voteBP@v0, voteDAO@v2, unstake@v3" })
+	rec.Case("regression", "prev2-vote-2", true, func() interface{} { return "second fingerprint of the same history" })
+	scs, err := statedb.GetSystemAccountState(N.CS.SDB().OpenNewStateDB(root))
+	if err != nil {
+		t.Fatal(err)
+	}
+	eq, mem, st, err := system.VerifVPREqualsState(scs)
+	if err == nil && eq {
+		return // the finding is gone
+	}
+	if rec.IsKnown("vpr-votes-cast-before-v2") {
+		rec.Excluded("vpr-votes-cast-before-v2")
+		return
+	}
+	t.Fatalf("in-memory voting power ranking (total %v) differs from the one rebuilt from state (total %v, err %v)\n%s", mem, st, err, system.VerifVPRDescribe(scs))
 }
